@@ -1,3 +1,264 @@
-import Cutadapt.Stats
+import Cutadapt.Proofs.StepsPaired
+import Cutadapt.Proofs.StepsPair
+import Cutadapt.Proofs.StepsShape
+/-! # C05 — paired-end outputs stay synchronized and pairs are filtered as a unit
+
+Model: `Cutadapt.Pipeline` (`stepP`, `pairFiltered`, `applyP … (.pairAdapters …)`, `bestPairGo`, `runPaired`),
+`Cutadapt.Assembly` (`makeSteps`, `lengthPreds`). Helper lemmas: `Cutadapt/Proofs/Steps*.lean`. -/
 namespace Cutadapt.C05
+open Cutadapt Cutadapt.Steps
+
+/-! ## Both mates travel together -/
+
+/-- An error-free run is the concatenation, in input order, of the event lists of the individual reads (pairs). -/
+theorem run_is_concat {f : α → Except Err (List Event)} {reads : List α} {evs : List Event}
+    (h : runReads f reads [] = (evs, none)) :
+    evs = (reads.map (fun r => (f r).toOption.getD [])).flatten ∧ ∀ r ∈ reads, ∃ e, f r = .ok e := by
+  obtain ⟨h1, h2⟩ := Steps.run_is_concat h
+  exact ⟨h1, fun r hr => ⟨_, h2 r hr⟩⟩
+
+/-- Every record a paired-end run writes carries both mates, and they are the two mates of one input pair after the
+    modifiers: `stepP` hands `(r1, r2)` through all steps together. -/
+theorem paired_writes_carry_both_mates {p : PairedPipeline} {reads : List (Read × Read)} {evs : List Event}
+    (ht : Terminal p.steps) (h : runPaired p reads = (evs, none)) {w : Nat} {a : Read} {b : Option Read}
+    (hw : Event.write w a b ∈ evs) :
+    ∃ pr ∈ reads, ∃ r' i' evs0,
+      runModsP p.ads1 p.ads2 p.mods pr ({ original := pr.1 }, { original := pr.2 })
+        [Event.input pr.1.len (some pr.2.len)] = .ok (r', i', evs0) ∧
+      a = r'.1 ∧ b = some r'.2 := by
+  obtain ⟨pr, hpr, hok, hmem⟩ := mem_run h hw
+  obtain ⟨r', i', evs0, hm, -, hlog⟩ := processReadP_log ht hok
+  exact ⟨pr, hpr, r', i', evs0, hm, hlog.writes hmem⟩
+
+/-- A pair is kept, redirected or discarded as a unit: its log has at most one `write`, which carries both mates of the
+    pair; and exactly one fate event (written or one filter category). -/
+theorem pair_is_a_unit {p : PairedPipeline} {pr : Read × Read} {evs : List Event}
+    (ht : Terminal p.steps) (h : processReadP p pr = .ok evs) :
+    evs.countP isWrite ≤ 1 ∧ evs.countP isFate = 1 ∧
+    ∃ r' i' evs0, runModsP p.ads1 p.ads2 p.mods pr ({ original := pr.1 }, { original := pr.2 })
+        [Event.input pr.1.len (some pr.2.len)] = .ok (r', i', evs0) ∧
+      ∀ w a b, Event.write w a b ∈ evs → a = r'.1 ∧ b = some r'.2 := by
+  obtain ⟨r', i', evs0, hm, -, hlog⟩ := processReadP_log ht h
+  refine ⟨hlog.write_count, ?_, r', i', evs0, hm, fun w a b hw => hlog.writes hw⟩
+  obtain ⟨cnt, texts, tail, rfl, hc, htx, htl⟩ := hlog
+  rw [List.countP_cons, List.countP_append, countP_of_all_false (fun x hx => counter_not_fate (hc x hx))]
+  have := (fate_of_tail htx htl).1
+  simpa [isFate] using this
+
+/-- **Files stay in step.** For every record writer of an error-free paired-end run: the R1 records and the R2 records
+    it received are the two projections of one list of pairs — equally many, in the same order, record `k` of R1 and of R2
+    from the same pair —, this list is the concatenation over the input pairs, in input order, of at most one pair each,
+    and that pair is the input pair after the modifiers. -/
+theorem files_in_step {p : PairedPipeline} {reads : List (Read × Read)} {evs : List Event}
+    (ht : Terminal p.steps) (h : runPaired p reads = (evs, none)) (w : Nat) :
+    r1sOf w evs = (pairsOf w evs).map (·.1) ∧ r2sOf w evs = (pairsOf w evs).map (·.2) ∧
+    (r1sOf w evs).length = (r2sOf w evs).length ∧
+    pairsOf w evs = (reads.map (fun pr => pairsOf w (evsOf (processReadP p) pr))).flatten ∧
+    ∀ pr ∈ reads, (pairsOf w (evsOf (processReadP p) pr)).length ≤ 1 ∧
+      ∀ x ∈ pairsOf w (evsOf (processReadP p) pr), ∃ i' evs0,
+        runModsP p.ads1 p.ads2 p.mods pr ({ original := pr.1 }, { original := pr.2 })
+          [Event.input pr.1.len (some pr.2.len)] = .ok (x, i', evs0) := by
+  have hboth : ∀ w' a b, Event.write w' a b ∈ evs → b.isSome = true := by
+    intro w' a b hw
+    obtain ⟨_, _, _, _, _, _, _, rfl⟩ := paired_writes_carry_both_mates ht h hw
+    rfl
+  obtain ⟨e1, e2⟩ := mates_in_step w evs hboth
+  refine ⟨e1, e2, by rw [e1, e2]; simp, ?_, ?_⟩
+  · rw [(Steps.run_is_concat h).1, pairsOf_flatten, List.map_map]
+    rfl
+  · intro pr hpr
+    have hok := (Steps.run_is_concat h).2 pr hpr
+    obtain ⟨r', i', evs0, hm, -, hlog⟩ := processReadP_log ht hok
+    refine ⟨Nat.le_trans (pairsOf_length_le w _) hlog.write_count, ?_⟩
+    intro x hx
+    simp only [pairsOf, List.mem_filterMap] at hx
+    obtain ⟨ev, hev, hx⟩ := hx
+    cases ev with
+    | write w' a b =>
+      obtain ⟨rfl, rfl⟩ := hlog.writes hev
+      simp only at hx
+      split at hx
+      · simp only [Option.some.injEq] at hx
+        subst hx
+        exact ⟨i', evs0, hm⟩
+      · simp at hx
+    | _ => simp at hx
+
+/-! ## The pair decision -/
+
+/-- `--pair-filter`: with a criterion on both reads, `any` = at least one read matches, `both` = both match,
+    `first` = R1 decides. -/
+theorem pair_decision (a b : Pred) (mode : PairMode) (r1 r2 : Read) (i1 i2 : Info) (t1 t2 : Bool)
+    (h1 : a.test r1 i1 = .ok t1) (h2 : b.test r2 i2 = .ok t2) :
+    pairFiltered (some a) (some b) mode r1 r2 i1 i2 =
+      .ok (match mode with
+           | .any => t1 || t2
+           | .both => t1 && t2
+           | .first => t1) := by
+  cases mode <;> cases t1 <;> simp [pairFiltered, h1, h2, bind, Except.bind, pure, Except.pure]
+
+/-- `or` / `and` short-circuit: the second criterion is not even evaluated (so cannot raise) when the first decides. -/
+theorem pair_decision_short_circuit (a b : Pred) (r1 r2 : Read) (i1 i2 : Info) :
+    (a.test r1 i1 = .ok true → pairFiltered (some a) (some b) .any r1 r2 i1 i2 = .ok true) ∧
+    (a.test r1 i1 = .ok false → pairFiltered (some a) (some b) .both r1 r2 i1 i2 = .ok false) ∧
+    pairFiltered (some a) (some b) .first r1 r2 i1 i2 = a.test r1 i1 := by
+  refine ⟨fun h => ?_, fun h => ?_, rfl⟩ <;> simp [pairFiltered, h, bind, Except.bind, pure, Except.pure]
+
+/-- a criterion on one side only decides alone, whatever the mode -/
+theorem pair_decision_one_sided (a : Pred) (mode : PairMode) (r1 r2 : Read) (i1 i2 : Info) :
+    pairFiltered (some a) none mode r1 r2 i1 i2 = a.test r1 i1 ∧
+    pairFiltered none (some a) mode r1 r2 i1 i2 = a.test r2 i2 := ⟨rfl, rfl⟩
+
+/-- `-m LEN:` / `-m :LEN2` (and `-M`): a one-sided bound yields a predicate for that side only; single-end runs use the
+    first bound only. -/
+theorem lengthPreds_one_sided (mk : Int → Pred) (n : Int) (x : Option Int) :
+    lengthPreds mk true (some n, none) = (some (mk n), none) ∧
+    lengthPreds mk true (none, some n) = (none, some (mk n)) ∧
+    lengthPreds mk true (some n, some n) = (some (mk n), some (mk n)) ∧
+    lengthPreds mk false (some n, x) = (some (mk n), none) := ⟨rfl, rfl, rfl, rfl⟩
+
+/-- hence `-m 20:` looks at R1 only and `-m :20` at R2 only, with every `--pair-filter` mode -/
+theorem one_sided_length_bound (n : Int) (mode : PairMode) (r1 r2 : Read) (i1 i2 : Info) :
+    pairFiltered (lengthPreds .tooShort true (some n, none)).1 (lengthPreds .tooShort true (some n, none)).2 mode r1 r2 i1 i2
+      = .ok (decide ((r1.len : Int) < n)) ∧
+    pairFiltered (lengthPreds .tooShort true (none, some n)).1 (lengthPreds .tooShort true (none, some n)).2 mode r1 r2 i1 i2
+      = .ok (decide ((r2.len : Int) < n)) ∧
+    pairFiltered (lengthPreds .tooLong true (some n, none)).1 (lengthPreds .tooLong true (some n, none)).2 mode r1 r2 i1 i2
+      = .ok (decide ((r1.len : Int) > n)) ∧
+    pairFiltered (lengthPreds .tooLong true (none, some n)).1 (lengthPreds .tooLong true (none, some n)).2 mode r1 r2 i1 i2
+      = .ok (decide ((r2.len : Int) > n)) := ⟨rfl, rfl, rfl, rfl⟩
+
+/-- a pair with a short R2: `-m 3` (both sides, `any`) filters it, `--pair-filter=both` and `first` keep it, `-m 3:` keeps it -/
+def exShort : Read := ⟨[114], [65, 67], none⟩
+def exLong : Read := ⟨[114], [65, 67, 71, 84], none⟩
+example : pairFiltered (some (.tooShort 3)) (some (.tooShort 3)) .any exLong exShort { original := exLong } { original := exShort } = .ok true := rfl
+example : pairFiltered (some (.tooShort 3)) (some (.tooShort 3)) .both exLong exShort { original := exLong } { original := exShort } = .ok false := rfl
+example : pairFiltered (some (.tooShort 3)) (some (.tooShort 3)) .first exLong exShort { original := exLong } { original := exShort } = .ok false := rfl
+example : pairFiltered (some (.tooShort 3)) none .any exLong exShort { original := exLong } { original := exShort } = .ok false := rfl
+
+/-! ## `both` is forced for the untrimmed filters when only one side has adapters -/
+
+/-- Without demultiplexing, with `--discard-untrimmed` or `--untrimmed-output`: the step before the sink is the
+    `isUntrimmed` filter, on both reads when paired, and its mode is `both` iff the run is paired and the adapter list of
+    one side is empty — regardless of `--pair-filter`; otherwise it is `--pair-filter` (default `any`). -/
+theorem untrimmed_filter_forced_both {o : Opts} {names names2 : List String} {steps : List Step} {f : Files}
+    (h : makeSteps o names names2 = .ok (steps, f)) (hdm : demuxMode o = .ok 0)
+    (hu : o.discardUntrimmed = true ∨ (o.untrimmedOut.isSome || o.untrimmedPaired.isSome) = true) :
+    ∃ pre w i, steps = pre ++
+      [.filter (some .isUntrimmed) (if o.paired = true then some .isUntrimmed else none)
+        (if (o.paired && (names2.isEmpty || names.isEmpty)) = true then .both else o.pairFilter.getD .any) w,
+       .sink i] := by
+  obtain ⟨dm, hdm', -, hk, heq⟩ := makeSteps_ok h
+  rw [hdm] at hdm'
+  simp only [Except.ok.injEq] at hdm'
+  subst hdm'
+  simp only [finalD, show ((0 : Nat) = 1) = False by decide, show ((0 : Nat) = 2) = False by decide, if_false,
+    Prod.mk.injEq] at heq
+  obtain ⟨rfl, -⟩ := heq
+  simp only [finalOk, Bool.and_eq_true, decide_eq_true_eq] at hk
+  obtain ⟨⟨⟨hsum, -⟩, -⟩, -⟩ := hk
+  have hU : ∃ w, (untrimmedFilter o names names2 (o.pairFilter.getD .any) (front o).1).2 =
+      [.filter (some .isUntrimmed) (if o.paired = true then some .isUntrimmed else none)
+        (if (o.paired && (names2.isEmpty || names.isEmpty)) = true then .both else o.pairFilter.getD .any) w] := by
+    unfold untrimmedFilter
+    generalize (o.untrimmedOut.isSome || o.untrimmedPaired.isSome) = ug at hsum hu ⊢
+    cases hdt : o.discardTrimmed <;> cases hdu : o.discardUntrimmed <;> cases ug <;> simp [hdt, hdu] at hsum hu
+    · exact ⟨(filterWriter o.paired (front o).fst o.untrimmedOut o.untrimmedPaired).2, by simp⟩
+    · exact ⟨none, by cases o.paired <;> simp⟩
+  obtain ⟨w, hU⟩ := hU
+  exact ⟨(front o).2 ++ simpleSteps o, w,
+    (untrimmedFilter o names names2 (o.pairFilter.getD .any) (front o).1).1.writers.length, by rw [hU]; simp⟩
+
+
+/-! ## `--pair-adapters` -/
+
+/-- the two matches of the chosen pair belong to adapters of the same rank -/
+theorem bestPairGo_same_rank {s1 s2 : Bytes} {ads1 ads2 : List Matchable} {m1 m2 : AnyMatch}
+    (h : bestPairGo s1 s2 (ads1.zip ads2) 0 none = some (m1, m2)) :
+    ∃ k x1 x2, ads1[k]? = some x1 ∧ ads2[k]? = some x2 ∧ x1.matchTo k s1 = some m1 ∧ x2.matchTo k s2 = some m2 ∧
+      m1.adapter = k ∧ m2.adapter = k := by
+  rcases bestPair_spec s1 s2 ads1 ads2 with ⟨hn, -⟩ | ⟨j, m, hm, hc, -⟩
+  · rw [hn] at h; simp at h
+  · rw [hm] at h
+    simp only [Option.some.injEq] at h
+    subst h
+    obtain ⟨x1, x2, e1, e2, t1, t2⟩ := cand_zip.1 hc
+    exact ⟨j, x1, x2, e1, e2, t1, t2, matchTo_adapter t1, matchTo_adapter t2⟩
+
+/-- `_find_best_match_pair` is an arg-max: among the ranks `j` at which both the R1 adapter matches R1 and the R2 adapter
+    matches R2, the chosen rank `k` has the highest summed score, among those the fewest summed errors, among those
+    the lowest rank; and nothing is chosen only if there is no such rank. -/
+theorem bestPairGo_is_argmax (s1 s2 : Bytes) (ads1 ads2 : List Matchable) :
+    (bestPairGo s1 s2 (ads1.zip ads2) 0 none = none ∧
+      ∀ (j : Nat) (x1 x2 : Matchable) (n1 n2 : AnyMatch), ads1[j]? = some x1 → ads2[j]? = some x2 →
+        x1.matchTo j s1 = some n1 → x2.matchTo j s2 = some n2 → False) ∨
+    (∃ k m1 m2, bestPairGo s1 s2 (ads1.zip ads2) 0 none = some (m1, m2) ∧
+      (∃ x1 x2, ads1[k]? = some x1 ∧ ads2[k]? = some x2 ∧ x1.matchTo k s1 = some m1 ∧ x2.matchTo k s2 = some m2) ∧
+      ∀ (j : Nat) (x1 x2 : Matchable) (n1 n2 : AnyMatch), ads1[j]? = some x1 → ads2[j]? = some x2 →
+        x1.matchTo j s1 = some n1 → x2.matchTo j s2 = some n2 →
+        n1.score + n2.score ≤ m1.score + m2.score ∧
+        (n1.score + n2.score = m1.score + m2.score → m1.errors + m2.errors ≤ n1.errors + n2.errors) ∧
+        (n1.score + n2.score = m1.score + m2.score → n1.errors + n2.errors = m1.errors + m2.errors → k ≤ j)) := by
+  rcases bestPair_spec s1 s2 ads1 ads2 with ⟨hn, hall⟩ | ⟨k, m, hm, hc, hopt⟩
+  · left
+    refine ⟨hn, fun j x1 x2 n1 n2 e1 e2 t1 t2 => ?_⟩
+    exact hall j (n1, n2) (cand_zip.2 ⟨x1, x2, e1, e2, t1, t2⟩)
+  · right
+    obtain ⟨m1, m2⟩ := m
+    refine ⟨k, m1, m2, hm, cand_zip.1 hc, fun j x1 x2 n1 n2 e1 e2 t1 t2 => ?_⟩
+    obtain ⟨h1, h2⟩ := hopt j (n1, n2) (cand_zip.2 ⟨x1, x2, e1, e2, t1, t2⟩)
+    simp only [Beats, pairKey] at h1 h2
+    refine ⟨by omega, by omega, fun hs he => h2 (by omega)⟩
+
+/-- **Both or neither.** `PairedAdapterCutter`: either no rank matches on both sides and the pair passes through untouched
+    (reads, infos, no events), or one rank `k` is chosen, both mates are processed with the match of their adapter of
+    rank `k` (the action applied to each), and both infos get exactly that one match appended. -/
+theorem pair_adapters_both_or_neither {a1 a2 ads1 ads2 : List Matchable} {action : Action} {f1 f2 : Bool}
+    {r1 r2 o1 o2 : Read} {i1 i2 i1' i2' : Info} {evs : List Event}
+    (h : applyP a1 a2 (.pairAdapters ads1 ads2 action f1 f2) (r1, r2) (i1, i2) = .ok ((o1, o2), (i1', i2'), evs)) :
+    (bestPairGo r1.seq r2.seq (ads1.zip ads2) 0 none = none ∧ o1 = r1 ∧ o2 = r2 ∧ i1' = i1 ∧ i2' = i2 ∧ evs = []) ∨
+    (∃ k x1 x2 m1 m2, bestPairGo r1.seq r2.seq (ads1.zip ads2) 0 none = some (m1, m2) ∧
+      ads1[k]? = some x1 ∧ ads2[k]? = some x2 ∧ x1.matchTo k r1.seq = some m1 ∧ x2.matchTo k r2.seq = some m2 ∧
+      m1.adapter = k ∧ m2.adapter = k ∧
+      (∃ ra, pairActionRead action r1 m1 = .ok (o1, ra)) ∧ (∃ rb, pairActionRead action r2 m2 = .ok (o2, rb)) ∧
+      i1'.mts = i1.mts ++ [m1] ∧ i2'.mts = i2.mts ++ [m2] ∧
+      evs = [.withAdapter 0, .withAdapter 1, .matched 0 m1 false, .matched 1 m2 false]) := by
+  simp only [applyP] at h
+  split at h
+  · rename_i hb
+    simp only [Except.ok.injEq, Prod.mk.injEq] at h
+    obtain ⟨⟨rfl, rfl⟩, ⟨rfl, rfl⟩, rfl⟩ := h
+    exact .inl ⟨hb, rfl, rfl, rfl, rfl, rfl⟩
+  · rename_i m1 m2 hb
+    right
+    obtain ⟨k, x1, x2, e1, e2, t1, t2, g1, g2⟩ := bestPairGo_same_rank hb
+    simp only [bind, Except.bind] at h
+    split at h
+    · simp at h
+    · rename_i v1 hv1
+      split at h
+      · simp at h
+      · rename_i v2 hv2
+        simp only [pure, Except.pure, Except.ok.injEq, Prod.mk.injEq] at h
+        obtain ⟨⟨rfl, rfl⟩, ⟨rfl, rfl⟩, rfl⟩ := h
+        refine ⟨k, x1, x2, m1, m2, hb, e1, e2, t1, t2, g1, g2, ⟨v1.2, hv1⟩, ⟨v2.2, hv2⟩, ?_, ?_, rfl⟩
+        · cases f1 <;> rfl
+        · cases f2 <;> rfl
+
+/-- with the `trim` action both mates are cut by their match, or neither is changed -/
+theorem pair_adapters_trim {a1 a2 ads1 ads2 : List Matchable} {f1 f2 : Bool}
+    {r1 r2 o1 o2 : Read} {i1 i2 i1' i2' : Info} {evs : List Event}
+    (h : applyP a1 a2 (.pairAdapters ads1 ads2 .trim f1 f2) (r1, r2) (i1, i2) = .ok ((o1, o2), (i1', i2'), evs)) :
+    (o1 = r1 ∧ o2 = r2 ∧ evs = []) ∨
+    (∃ m1 m2, bestPairGo r1.seq r2.seq (ads1.zip ads2) 0 none = some (m1, m2) ∧ m1.adapter = m2.adapter ∧
+      o1 = m1.trimmed r1 ∧ o2 = m2.trimmed r2) := by
+  rcases pair_adapters_both_or_neither h with ⟨-, rfl, rfl, -, -, rfl⟩ | ⟨k, x1, x2, m1, m2, hb, -, -, -, -, g1, g2, ⟨ra, h1⟩, ⟨rb, h2⟩, -⟩
+  · exact .inl ⟨rfl, rfl, rfl⟩
+  · right
+    simp only [pairActionRead, Except.ok.injEq, Prod.mk.injEq] at h1 h2
+    refine ⟨m1, m2, hb, by rw [g1, g2], ?_, ?_⟩
+    · have : (Action.trim == Action.lowercase) = false := rfl
+      simpa [this] using h1.1.symm
+    · have : (Action.trim == Action.lowercase) = false := rfl
+      simpa [this] using h2.1.symm
 end Cutadapt.C05
